@@ -1,0 +1,6 @@
+//go:build verif
+
+package addrquota
+
+// VerifIPKey is ipKey.
+func VerifIPKey(ip string) string { return ipKey(ip) }
